@@ -164,15 +164,25 @@ def onlyBlanksAround (cells : List Cell) (keep : String) (a b : Nat) : Bool :=
     | .other _ :: _ => false
   go 0 cells
 
+def specOfCell (cells : List Cell) (name : String) : Option Spec :=
+  cells.findSome? fun c => match c with
+    | .fld n sp => if n = name then some sp else none
+    | _ => none
+
 /-- parser field `[a, b)` reads writer cell `name`: it contains the part of the cell a value of at
 most `maxLen` characters occupies (right-aligned: the last `maxLen` columns; left-aligned: the first)
-and nothing else that is not blank -/
-def fieldReads (cells : List Cell) (name : String) (rightAligned : Bool) (maxLen : Nat) (a b : Nat) : Bool :=
-  match (nominal cells).find? (fun t => t.1 = name) with
-  | none => false
-  | some (_, s, e) =>
+and nothing else that is not blank.  The alignment is the cell's own (`<`/`>` in the spec), else
+the default of the value kind: `numeric` values right, text left. -/
+def fieldReads (cells : List Cell) (name : String) (numeric : Bool) (maxLen : Nat) (a b : Nat) : Bool :=
+  match (nominal cells).find? (fun t => t.1 = name), specOfCell cells name with
+  | some (_, s, e), some sp =>
+    let rightAligned := match sp.align with
+      | some .right => true
+      | some .left => false
+      | none => numeric
     let lo := if rightAligned then e - min maxLen (e - s) else s
     let hi := if rightAligned then e else s + min maxLen (e - s)
     decide (a ≤ lo) && decide (hi ≤ b) && onlyBlanksAround cells name a b
+  | _, _ => false
 
 end Midgard.WriterCells
